@@ -93,3 +93,14 @@ package common
 //@   ensures [stored] err == nil ==> indom(st.lastHeartbeats, addr) && indom(st.lastHeartbeats[addr], peerId) && st.lastHeartbeats[addr][peerId] == hb
 //@   modifies map[peer.ID]*gossipv1.Heartbeat, map[common.Address]map[peer.ID]*gossipv1.Heartbeat, chan
 //@   nopanic
+
+// ---------------------------------------------------------------- gRPC server defaults (C20, C12)
+
+// The spy stream and the public RPC run on the server this constructor builds. Delivery "to
+// every subscriber" and "every lookup" assume gRPC's default message limits: the constructor
+// installs interceptors only (a frame on library configuration - no message-size, keepalive
+// or connection-count option may be added without revisiting those properties).
+//@ func NewInstrumentedGRPCServer(logger *zap.Logger) (srv *grpc.Server)
+//@   props C20 C12
+//@   calls-only google.golang.org/grpc: NewServer, StreamInterceptor, UnaryInterceptor
+//@   modifies *
